@@ -104,6 +104,9 @@ pub struct Tap {
     /// every wire buffer (requests and responses) when capture is on
     pub wire: Arc<StdMutex<Vec<Vec<u8>>>>,
     pub capture: bool,
+    /// outcome of the last patch request served: Some(true) = applied, Some(false) = refused
+    /// (conflict or error)
+    pub last_patch: Arc<StdMutex<Option<bool>>>,
 }
 
 /// Request gate: lets a scheduler decide the order in which requests of
@@ -336,6 +339,7 @@ impl SyncClient for DirectClient {
         };
         let r = server_helpers::event_patch::<_, sos_server_storage::Error>(request, storage).await;
         drop(s);
+        *self.tap.last_patch.lock().unwrap() = Some(matches!(&r, Ok((resp, _)) if matches!(resp.checked_patch, sos_core::events::patch::CheckedPatch::Success(_))));
         match r {
             Ok((resp, _outcome)) => {
                 let (resp, n_in) = self.wire(resp).await?;
